@@ -416,6 +416,10 @@ def _prim_cases(rng, thorough):
         u, v, n = list(rng.choice(nz)), list(rng.choice(nz)), list(rng.choice(nz))
         evs.append({"op": "angle_2vec3D", "a": [u, v]})
         evs.append({"op": "signed_angle", "a": [u, v, n]})
+    # sliver corners (angle at B of 1e-4 rad and less, or that far from pi): the cotangent is still an exact rational of the lattice vectors
+    for A, B_, C in (([1, 0, 0], [0, 0, 0], [10000, 1, 0]), ([0, 0, 1], [0, 0, 0], [0, 3, 20000]), ([2, 1, 1], [1, 1, 1], [10001, 1, 2]),
+                     ([1, 0, 0], [0, 0, 0], [-10000, 1, 0]), ([0, 2, 0], [0, 0, 0], [1, 20000, 1]), ([1, 0, 0], [0, 0, 0], [1000, 1, 0])):
+        evs.append({"op": "cotan", "a": [A, B_, C]})
     for q in (1, 2, 3, 4, 6):
         for k in range(-4 * q, 4 * q + 1):
             if (k % q == 0) and ((k // q) % 2 != 0):
